@@ -153,7 +153,7 @@ theorem members_sigs (mode : InputMode) (ind : ImplIndirection) (fns : List Trai
   | cons tf rest ih => simp [GenMember.sig?, ih]
 
 theorem members_sigs' (mode : InputMode) (ind : ImplIndirection) (fns : List TraitFn) :
-    fns.filterMap (GenMember.sig? ∘ fun tf => GenMember.fn [] tf.sig (some (delegatingBody mode ind tf))) =
+    fns.filterMap (GenMember.sig? ∘ fun tf => GenMember.fn tf.attrs tf.sig (some (delegatingBody mode ind tf))) =
       fns.map (·.sig) := by
   induction fns with
   | nil => rfl
@@ -209,7 +209,12 @@ theorem T_C11 (v : Variant) (attr : Toks) (item : Item) (out : Out)
     simp only [expand] at h
     split at h
     · simp at h
-    · obtain ⟨items, a, fns, tg, depMode, implBlock, h0, h1, h2, _, h4, rfl⟩ := expandMod_ok h
+    · obtain ⟨items, a, fns0, fns, tg, depMode, implBlock, h0, h1, h2, hfns, _, h4, rfl⟩ := expandMod_ok h
+      have hz0 := analyzeFns_zip_cfg .selfRef (v.apply a.opts) (entryMatch (v.apply a.opts).noDepsValue) (fun _ _ _ => rfl)
+        ((items.filterMap BodyItem.fn?).map (·.sig)) {} tg fns0 (bodyFnAttrs items)
+        (fun s _ tg0 tf tg1 han => entryMatch_of_analyzeFn han) h2
+      rw [← hfns] at hz0
+      clear hfns h2
       have him := genImplBlock_ok h4
       simp only [P_C11, effectiveOpts, h1, Out.view, View.items, Out.inside, Out.after, mainTrait?, traitsOf,
         List.cons_append, List.nil_append, List.head?_cons]
@@ -220,9 +225,7 @@ theorem T_C11 (v : Variant) (attr : Toks) (item : Item) (out : Out)
         cases hp : unimockParams .plain (v.apply a.opts).mockApi .module fns with
         | none => simp
         | some ps =>
-          have hz := analyzeFns_zip .selfRef (v.apply a.opts) (entryMatch (v.apply a.opts).noDepsValue)
-            ((items.filterMap BodyItem.fn?).map (·.sig)) {} tg fns
-            (fun s _ tg0 tf tg1 han => entryMatch_of_analyzeFn han) h2
+          have hz := hz0
           have := unimockParams_expected (v.apply a.opts) .module (Or.inr rfl) (items.filterMap BodyItem.fn?) fns ps hz hp
           simp only [Option.toList, beq_iff_eq, this]
           simp [expectedUnimock, Item.mode, mainImpl?, View.items, implsOf, unmockEntries, Item.sourceFns, h0, him, members_sigs',
@@ -242,7 +245,7 @@ theorem T_C11 (v : Variant) (attr : Toks) (item : Item) (out : Out)
     · simp
     · simp [expectedUnimock, Item.mode, (by decide : (Mode.trait == Mode.fn) = false)]
   | impl m =>
-    obtain ⟨items, a, fns, tg, depMode, implBlock, h0, h1, h2, _, h4, rfl⟩ := expandImpl_ok h
+    obtain ⟨items, a, fns0, fns, tg, depMode, implBlock, h0, h1, h2, hfns, _, h4, rfl⟩ := expandImpl_ok h
     simp [P_C11, effectiveOpts, h1, Out.view, View.items, Out.inside, Out.after, mainTrait?, traitsOf, Item.mode]
 
 /-- non-vacuity: the README-style invocation `#[entrait(pub Foo, mock_api = M, unimock)] fn foo(..)` -/
